@@ -356,6 +356,10 @@ func (c *Client) closeUnattendedSession() {
 		}
 	}()
 	c.Disconnect()
+	// The attempt is reported by the error its caller returns, not by an event; but the state announced when
+	// the session was established must not outlive it: the client is disconnected again (a StreamManager only
+	// connects a disconnected client).
+	c.CurrentState.setState(StateDisconnected)
 }
 
 // newKeepaliveQuit makes the quit channel of the keepalive of a new connection and remembers how to close it.
